@@ -77,3 +77,8 @@ CLAIMS["C09"] = {
     "note": "Driven through the cfg-guarded public wrapper around the crate-private PayloadWriter; the drain wrapper does exactly what the forwarder does per flush.",
     "technique": "runtime monitoring: independent DogStatsD decoder + accounting identities over generated writer lifetimes; panic capture",
 }
+CLAIMS["C10"] = {
+    "text": "Exploration with forced windows: every atomic step of increment/absolute is held open across a complete flush and every step of AtomicCounter::flush is held open until an updater finished (gates), plus random holds and free runs; the decoded flush outputs are judged by conservation and interval rules on stamped update/flush histories (sum of deltas == increments, absolute last-first, no delta beyond what was invoked, zero exactly once, gauge recency, each histogram value in exactly one flush and never late, timestamp per documented mode); real exporters are run end to end against unix stream (length-prefixed), unixgram and UDP sockets and every received frame is decoded.",
+    "note": "The flush driver is the cfg-guarded wrapper that performs exactly the forwarder's per-cycle steps. Sampling (reservoir) is covered by C16. One history class is a listed known finding (first absolute() racing a flush).",
+    "technique": "runtime monitoring: gated hook schedules on the aggregation atomics + conservation/interval oracle over decoded flush outputs; socket-level capture with independent decoder",
+}
